@@ -8,6 +8,7 @@ import NostrRelay.Model.Notifier
 import NostrRelay.Model.KV
 import NostrRelay.Model.SQL
 import NostrRelay.Model.Json
+import NostrRelay.Model.Admission
 
 open Lean
 
@@ -148,6 +149,69 @@ def frameJson : Option Frame → Json
 
 end JD
 
+/-! ### admission decision logic -/
+namespace AD
+open NostrRelay.Admission
+
+def getBool (j : Json) (k : String) : Bool := (j.getObjValAs? Bool k).toOption.getD false
+def verdictStr : Verdict → String | .ok => "ok" | .reject => "reject" | .raises => "raises"
+def bytesList (j : Json) : List (List Nat) := (j.getArr?.toOption.getD #[]).toList.map fun x => fromHex (x.getStr?.toOption.getD "")
+
+def parseFacts (j : Json) : Facts :=
+  { pubkeyParses := getBool j "pubkeyParses", sigDecodes := getBool j "sigDecodes", sigValid := getBool j "sigValid",
+    idIsHash := getBool j "idIsHash", canonHex := getBool j "canonHex",
+    delegations := (getArr j "delegations").toList.map fun d =>
+      match d with
+      | Json.bool b => Deleg.checked b
+      | _ => Deleg.malformed }
+
+def parseCfg (j : Json) : Cfg :=
+  { maxEventSize := getInt j "max_event_size", oldestEvent := getInt j "oldest_event",
+    validKinds := (getArr j "valid_kinds").toList.map fun x => x.getInt?.toOption.getD 0,
+    whitelist := bytesList (j.getObjVal? "whitelist" |>.toOption.getD Json.null),
+    blacklist := bytesList (j.getObjVal? "blacklist" |>.toOption.getD Json.null),
+    requirePow := getInt j "require_pow", hellthreadLimit := getInt j "hellthread_limit",
+    servicePubkey := fromHex (getStr j "service_pubkey") }
+
+def parseEv (j : Json) : Ev :=
+  { pubkey := fromHex (getStr j "pubkey"), kind := getInt j "kind", createdAt := getInt j "created_at",
+    contentLen := getInt j "content_len", idBitLength := getInt j "id_bit_length", pTags := getInt j "p_tags" }
+
+def runValidator (name : String) (c : Cfg) (now : Int) (e : Ev) (allowed denied : List (List Nat)) : Verdict :=
+  match name with
+  | "is_not_too_large" => isNotTooLarge c e
+  | "is_recent" => isRecent c now e
+  | "is_certain_kind" => isCertainKind c e
+  | "is_author_whitelisted" => isAuthorWhitelisted c e
+  | "is_author_blacklisted" => isAuthorBlacklisted c e
+  | "is_pow" => isPow c e
+  | "is_not_hellthread" => isNotHellthread c e
+  | "is_service_event" => isServiceEvent c e
+  | "is_pubkey_allowed" => isPubkeyAllowed allowed denied e
+  | _ => .raises
+
+def parseAuthTag (j : Json) : AuthTag :=
+  match j.getArr?.toOption.map (·.toList) with
+  | some [Json.str "relay", Json.bool b] => .relay b
+  | some [Json.str "challenge", Json.bool b] => .challenge b
+  | some [Json.str "short"] => .short
+  | _ => .other
+
+def parseAuthFacts (j : Json) : AuthFacts :=
+  { isDict := getBool j "isDict",
+    verifies := match j.getObjVal? "verifies" with | .ok (Json.bool b) => some b | _ => none,
+    kind := getInt j "kind", createdAt := getInt j "created_at",
+    tags := (getArr j "tags").toList.map parseAuthTag }
+
+def parseOps (j : Json) : List SetOp :=
+  (j.getArr?.toOption.getD #[]).toList.map fun o =>
+    match getStr o "op" with
+    | "clear" => SetOp.clear
+    | "update" => SetOp.update (bytesList (o.getObjVal? "s" |>.toOption.getD Json.null))
+    | _ => SetOp.intersectionUpdate (bytesList (o.getObjVal? "s" |>.toOption.getD Json.null))
+
+end AD
+
 structure St where
   rlCfg : NostrRelay.RateLimiter.Config := {}
   rl : NostrRelay.RateLimiter.State := {}
@@ -217,6 +281,20 @@ def step (st : St) (j : Json) : St × Json :=
   | "json.eose" => (st, JD.jcps (NostrRelay.Json.eoseFrame (JD.field j "sid")))
   | "json.enc" => (st, JD.jcps (NostrRelay.Json.encodeBasestring (JD.field j "s")))
   | "json.parse" => (st, JD.frameJson (NostrRelay.Json.parseFrame (JD.field j "s")))
+  | "adm.isSigned" => (st, Json.str (AD.verdictStr (NostrRelay.Admission.isSigned (AD.parseFacts (j.getObjVal? "facts" |>.toOption.getD Json.null)))))
+  | "adm.validator" =>
+    let c := AD.parseCfg (j.getObjVal? "cfg" |>.toOption.getD Json.null)
+    let e := AD.parseEv (j.getObjVal? "ev" |>.toOption.getD Json.null)
+    (st, Json.str (AD.verdictStr (AD.runValidator (getStr j "name") c (getInt j "now") e
+      (AD.bytesList (j.getObjVal? "allowed" |>.toOption.getD Json.null)) (AD.bytesList (j.getObjVal? "denied" |>.toOption.getD Json.null)))))
+  | "adm.auth" => (st, Json.str (AD.verdictStr (NostrRelay.Admission.authenticate (getInt j "now") (AD.parseAuthFacts (j.getObjVal? "facts" |>.toOption.getD Json.null)))))
+  | "adm.canDo" =>
+    let ar : Option (List Char) := match j.getObjVal? "action_roles" with | .ok (Json.str r) => some r.toList | _ => none
+    (st, Json.bool (NostrRelay.Admission.canDo (AD.getBool j "enabled") ar (getStr j "token_roles").toList))
+  | "adm.observable" =>
+    let cur := AD.bytesList (j.getObjVal? "cur" |>.toOption.getD Json.null)
+    let obs := NostrRelay.Admission.observable cur (AD.parseOps (j.getObjVal? "ops" |>.toOption.getD Json.null))
+    (st, Json.arr (obs.map fun st => Json.arr ((st.map toHex).toArray.qsort (· < ·) |>.map Json.str)).toArray)
   | "nt.read" => (st, jHexList (NostrRelay.Notifier.readLoop 32 (by decide) [] (hexList j "chunks")))
   | "nt.readOld" => (st, jHexList (NostrRelay.Notifier.readLoopOld 32 (by decide) [] (hexList j "chunks")))
   | op => (st, Json.mkObj [("error", Json.str ("unknown op " ++ op))])
